@@ -47,8 +47,9 @@ Consume ==
        [] E.ev = "truncate" -> Truncate(E.f) /\ Quiet
        [] E.ev = "rename" -> Rename(E.f, E.f2) /\ Quiet
        [] E.ev = "remove" -> Remove(E.f) /\ Quiet
-       [] E.ev = "damage" ->   \* the driver damaged an index file between two sessions
-            /\ file' = [x \in DOMAIN file \ {E.f} |-> file[x]] /\ Quiet
+       [] E.ev = "damage" ->   \* the driver damaged a file between two sessions: what the model knew
+                               \* about it (and, for a blob, about the index describing it) is void
+            /\ file' = [x \in DOMAIN file \ (IF E.k = "blob" THEN {E.f, "i" \o ToString(E.id)} ELSE {E.f}) |-> file[x]] /\ Quiet
             /\ UNCHANGED <<everBlob, active, limit, api, strict>>
        [] E.ev = "append" -> Appended(E.f, E.off, E.len) /\ Quiet
        [] E.ev \in {"active_set", "active_restored", "active_replaced", "active_init"} -> SetActive(E.id) /\ Quiet
